@@ -75,7 +75,7 @@ def cases(draw, tight_margins=True):
     # dtype (all estimator/input combinations accept those on the pinned tree; float16/bfloat16
     # are rejected by torch.fft on CPU and are not in the domain)
     in_dtype = draw(st.sampled_from([None] * 10 + sorted(R.INT_DTYPES)))
-    up = draw(_ups(est, in_dtype))
+    up = draw(_ups(est, in_dtype, max(h, w) > 40))
     sk = draw(st.sampled_from(["int", "real", "real", "zero"]))
     dtype = "float64" if (est == "numpy" or in_dtype) else draw(st.sampled_from(["float64", "float64", "float32"]))
     case = {
@@ -159,12 +159,17 @@ def _route(draw, est):
     return {"via": draw(st.sampled_from(sorted(ROUTES[est]))), "explicit": draw(st.booleans())}
 
 
-def _ups(est, in_dtype):
+def _ups(est, in_dtype, large=False):
     """Upsample factors.  cross_correlation_shift_torch converts integer tensors to float32; with
     the pedestal of unsigned data its float32 correlation loses the peak curvature at high
     upsampling (measured on the pinned tree: 1.2 upsampled px at up=64, 0.07 at 16, 0.023 at 8,
-    for exact integer shifts), the same rounding limit as a pedestal on float32 images: up <= 8."""
+    for exact integer shifts), the same rounding limit as a pedestal on float32 images: up <= 8,
+    and up <= 2 (no upsampled stage) for sides above 40 px (the pedestal's share of the float32
+    correlation grows with the pixel count: 0.03-0.04 upsampled px already at up=3..8 on 128 px
+    images, a third of the head-room)."""
     if est == "torch" and in_dtype and R.INT_DTYPES[in_dtype][1] != 0.0:
+        if large:
+            return st.sampled_from([1, 2])
         return st.sampled_from([1, 2, 3, 4, 8]) | st.integers(1, 8)
     return st.sampled_from(UPS) | st.sampled_from(UPS) | st.integers(1, 64)
 
@@ -184,7 +189,7 @@ def _step(draw, kind, dtype, sk, tight_margins, in_dtype=None, h=None, w=None):
     est = t_est if dtype == "float32" else draw(st.sampled_from(["numpy", "numpy", t_est]))
     step = {
         "est": est,
-        "up": draw(_ups(est, in_dtype)),
+        "up": draw(_ups(est, in_dtype, h is not None and max(h, w) > 40)),
         "swap": draw(st.booleans()),
     }
     step.update(draw(_route(est)))
